@@ -115,7 +115,13 @@ func (iofs IOFS) ReadFile(name string) ([]byte, error) {
 	return bytes, nil
 }
 
-func (iofs IOFS) Sub(dir string) (fs.FS, error) { return IOFS{NewBasePathFs(iofs.Fs, dir)}, nil }
+func (iofs IOFS) Sub(dir string) (fs.FS, error) {
+	if dir == "." {
+		return iofs, nil
+	}
+
+	return IOFS{NewBasePathFs(iofs.Fs, dir)}, nil
+}
 
 func (IOFS) wrapError(op, path string, err error) error {
 	if _, ok := err.(*fs.PathError); ok {
